@@ -285,7 +285,9 @@ const COMMENTS: [&str; 14] = [
     "plain comment", "# hash", "a\nb: 2", "x\ry: 2", "nel\u{85}z: 1", "ls\u{2028}k: v", "- item", "key: value", "'quote\" mix", "", " lead and trail ",
     "tab\there", "nul\0byte", "very long comment very long comment very long comment very long comment very long comment very long comment very long comment",
 ];
-const BLOCK_STRINGS: [&str; 19] = [
+const BLOCK_STRINGS: [&str; 23] = [
+    // (tabs next to the blanks at which a folded line may be broken)
+    "aaaa bbbb \tcccc dddd eeee ffff", "\taaaa bbbb cccc dddd eeee", "aaaa\t bbbb cccc\t\tdddd eeee", "aa \t \tbb cc dd ee ff gg hh ii\n",
     // (single lines that start with blanks and are longer than the smaller wrap widths)
     "  leading blanks and then a long single line of words", " x y z w v u t s r q p", "   three  then  double  blanks  inside\n", "  lead\n", " a b\n\n",
     "line\n", "a\nb\n", "a\nb", "  leading blanks\nsecond\n", "trailing\n\n", "trailing\n\n\n", "word word word word word word word word word word word word word word word word word word word word word word word word averyveryveryveryveryveryveryveryveryveryveryveryveryveryveryveryverylongwordwithoutanyspace end\n", "tab\there\n", "x \ny\n", "\nstarts with break\n",
